@@ -152,7 +152,12 @@ func RunCheck(o CheckOpts) int {
 			names = append(names, ob.Name)
 		}
 		g.obs = append(g.obs, ob)
-		if g.worst == nil || statusRank(ob.Res.Status) > statusRank(g.worst.Res.Status) {
+		if ob.Kind == "cover" {
+			// a cover point reached on several paths is fine as soon as one of them is feasible
+			if g.worst == nil || statusRank(ob.Res.Status) < statusRank(g.worst.Res.Status) {
+				g.worst = ob
+			}
+		} else if g.worst == nil || statusRank(ob.Res.Status) > statusRank(g.worst.Res.Status) {
 			g.worst = ob
 		}
 	}
@@ -252,6 +257,15 @@ func RunCheck(o CheckOpts) int {
 	}
 	for _, n := range E.Notes {
 		assumptions = append(assumptions, "note: "+n)
+	}
+	for _, a := range E.CS.Assumed {
+		assumptions = append(assumptions, "assumed in a contract file (not proved): "+a)
+	}
+	for _, n := range E.CS.NonNil {
+		assumptions = append(assumptions, "assumed non-nil package variable (ledger): "+n)
+	}
+	if len(E.CS.ChanMsgs) > 0 {
+		assumptions = append(assumptions, "channels: thread-modular; message invariants (chanmsg) are proved at every send of the functions under contract and assumed at receives; sends by functions without a contract are not covered")
 	}
 	assumptions = append(assumptions,
 		"integers: mathematical Int with explicit mod-2^w wrap for unsigned types; signed +,-,* carry an overflow obligation",
